@@ -131,6 +131,11 @@ def cases(draw, max_steps=14):
             rows.append(dict(base, step=min(first + 3 + k, nst - 1), tag=len(rows), cell=draw(st.integers(0, 10**6))))
         scn["ibm"].update(kills=[], lifetime=0)
         scn["dense_release"] = True
+    if flav in (0, 1) and draw(st.sampled_from([False, True])):
+        # positions given as longitude / latitude on a curvilinear grid: the model converts the whole table at once
+        scn["grid"]["curved"] = True
+        scn["grid"]["mask"] = "none"
+        scn["release"]["by_lonlat"] = True
     ntag = len(scn["release"]["rows"])
     variant = draw(st.sampled_from(["drop", "add", "permute", "kill_others", "shift", "repeat", "kill_others", "drop", "add_zero"]))
     if scn.get("stage_cross"):
@@ -247,6 +252,8 @@ def oracle(scn) -> core.CaseResult:
     res.cls(scn["output"]["layout"])
     if scn["grid"].get("metric"):
         res.cls("cell_sizes_vary")
+    if scn["release"].get("by_lonlat"):
+        res.cls("released_by_lonlat_on_a_curvilinear_grid")
     if scn.get("coastal"):
         res.cls("coastal")
     if scn.get("stage_cross"):
